@@ -721,7 +721,31 @@ class Gen(object):
             default = True
 
         self.recursion_ok = optional and not self.in_set
-        node = self.gen_type(depth + 1)
+        node = None
+        shared = getattr(self.cur, 'shared_refs', None)
+
+        if shared is None:
+            shared = self.cur.shared_refs = {}
+
+        # ... and give the same name to members of the same referenced type
+        # in several types (`id9 Colour` here at [0], there at [3]): the
+        # compiled-type cache then hands out shallow copies of one object.
+        if name in shared and rng.random() < 0.6 \
+                and any(t == shared[name].ref
+                        for t, _ in self.visible_types()):
+            node = Node(**vars(shared[name]))
+        else:
+            if name.endswith('9') and self.has('refs') \
+                    and rng.random() < 0.5:
+                node = self.gen_ref()
+
+            if node is None:
+                node = self.gen_type(depth + 1)
+
+            if node.k == 'REF' and not node.recursive \
+                    and name.endswith('9') and node.text == node.ref:
+                shared[name] = node
+
         self.recursion_ok = False
 
         if optional:
